@@ -60,6 +60,8 @@ func (config Config) New(session *packet.Session) (h *Handler, err error) {
 
 // Close the handler and terminate all internal goroutines
 func (h *Handler) Close() error {
+	h.arpMutex.Lock() // closed is read by the spoof goroutines
+	defer h.arpMutex.Unlock()
 	if h.closed {
 		return nil
 	}
@@ -238,7 +240,10 @@ func (h *Handler) Scan() error {
 			continue
 		}
 
-		if h.closed { // return if Close() is called when we are in the loop
+		h.arpMutex.Lock()
+		closed := h.closed
+		h.arpMutex.Unlock()
+		if closed { // return if Close() is called when we are in the loop
 			return nil
 		}
 		err := h.Request(ip)
